@@ -329,4 +329,6 @@ FIXED_LOG = [
  "fixed: property=C15 4836963 procedure names with '-' (and names that only match PROCNAME_REGEX as a prefix) raised UnboundLocalError (procname='my-prog')",
  "fixed: property=C10 5dd1bab implicit string arrays never got the requested string size (10 A$(1)=\"X\" with default_str_storage=100)",
  "fixed: property=C20 7a287a6 ecb_instr never assigned its result (wrong substring length, loop one short, no 0 for no match)"
+,
+    "fixed: property=C05 d45f2c4 with an empty DATA item, a string function in the subscript of a numeric READ target was given the temporary that held the value just read (10 READ P(LEN(HEX$(255))) / 20 DATA 77, : the item was overwritten before ecb_read_filter used it)",
 ]
